@@ -83,3 +83,102 @@ Print Assumptions local_time_rs_eq_py.
 Theorem local_time_rs_spec : forall t off us, rs_local_time t off us = Some (local_time_spec (t + off) us).
 Proof. exact rs_local_time_spec. Qed.
 Print Assumptions local_time_rs_spec.
+
+(* ---- the specification side itself: Spec/Cal.v is EQUAL to the machine translation of CPython's pure-Python reference
+   implementation `_pydatetime.py` (Gen/StdlibCal.v: regenerated on every run from the staged interpreter's standard library;
+   `assert` -> Raise E_Exception, so `= Ok _` also states that no assertion of the stdlib source fails).
+   No bound on the year or the ordinal except where the stdlib function itself checks one. ---- *)
+From PV Require Import Gen.StdlibCal Proofs.StdlibCalFacts.
+
+Theorem spec_is_stdlib_is_leap : forall y, sl_is_leap y = is_leap y.
+Proof. exact sl_is_leap_spec. Qed.
+Print Assumptions spec_is_stdlib_is_leap.
+
+Theorem spec_is_stdlib_days_before_year : forall y, sl_days_before_year y = days_before_year y.
+Proof. exact sl_days_before_year_spec. Qed.
+Print Assumptions spec_is_stdlib_days_before_year.
+
+Theorem spec_is_stdlib_days_in_month : forall y m,
+  sl_days_in_month y m = if (1 <=? m) && (m <=? 12) then Ok (dim y m) else Raise E_Exception.
+Proof. exact sl_days_in_month_spec. Qed.
+Print Assumptions spec_is_stdlib_days_in_month.
+
+Theorem spec_is_stdlib_days_before_month : forall y m,
+  sl_days_before_month y m = if (1 <=? m) && (m <=? 12) then Ok (days_before_month y m) else Raise E_Exception.
+Proof. exact sl_days_before_month_spec. Qed.
+Print Assumptions spec_is_stdlib_days_before_month.
+
+(* _ymd2ord: defined exactly on the specification's valid dates (every year, also <= 0), and equal there *)
+Theorem spec_is_stdlib_ymd2ord : forall y m d,
+  sl_ymd2ord y m d = if valid_dateb y m d then Ok (ymd2ord y m d) else Raise E_Exception.
+Proof. exact sl_ymd2ord_spec. Qed.
+Print Assumptions spec_is_stdlib_ymd2ord.
+
+Theorem spec_is_stdlib_ymd2ord_valid : forall y m d, valid_dateb y m d = true -> sl_ymd2ord y m d = Ok (ymd2ord y m d).
+Proof. exact sl_ymd2ord_ok. Qed.
+Print Assumptions spec_is_stdlib_ymd2ord_valid.
+
+(* _ord2ymd: EVERY integer ordinal (the stdlib only calls it with n >= 1); none of its four assertions can fail *)
+Theorem spec_is_stdlib_ord2ymd : forall n, sl_ord2ymd n = Ok (ord2ymd n).
+Proof. exact sl_ord2ymd_spec. Qed.
+Print Assumptions spec_is_stdlib_ord2ymd.
+
+Theorem spec_is_stdlib_isoweek1monday : forall y, sl_isoweek1monday y = Ok (iso_week1_monday y).
+Proof. exact sl_isoweek1monday_spec. Qed.
+Print Assumptions spec_is_stdlib_isoweek1monday.
+
+Theorem spec_is_stdlib_toordinal : forall y m d,
+  sl_date_toordinal (mkdate y m d) = if valid_dateb y m d then Ok (ymd2ord y m d) else Raise E_Exception.
+Proof. exact sl_date_toordinal_spec. Qed.
+Print Assumptions spec_is_stdlib_toordinal.
+
+Theorem spec_is_stdlib_weekday : forall y m d, valid_dateb y m d = true ->
+  sl_date_weekday (mkdate y m d) = Ok (weekday0 (ymd2ord y m d)).
+Proof. exact sl_date_weekday_spec. Qed.
+Print Assumptions spec_is_stdlib_weekday.
+
+Theorem spec_is_stdlib_isoweekday : forall y m d, valid_dateb y m d = true ->
+  sl_date_isoweekday (mkdate y m d) = Ok (iso_weekday (ymd2ord y m d)).
+Proof. exact sl_date_isoweekday_spec. Qed.
+Print Assumptions spec_is_stdlib_isoweekday.
+
+Theorem spec_is_stdlib_isocalendar : forall y m d, valid_dateb y m d = true ->
+  sl_date_isocalendar (mkdate y m d) = Ok (isocalendar y m d).
+Proof. exact sl_date_isocalendar_spec. Qed.
+Print Assumptions spec_is_stdlib_isocalendar.
+
+(* _isoweek_to_gregorian = the arithmetic of date.fromisocalendar: accepted exactly for years 1..9999, weeks 1..iso_weeks_in_year,
+   weekdays 1..7 (ValueError otherwise), and then the date of the specification's ordinal *)
+Theorem spec_is_stdlib_fromisocalendar : forall y w d,
+  sl_isoweek_to_gregorian y w d =
+  if isoweek_args_ok y w d then Ok (ord2ymd (fromisocalendar_ord y w d)) else Raise E_ValueError.
+Proof. exact sl_isoweek_to_gregorian_spec. Qed.
+Print Assumptions spec_is_stdlib_fromisocalendar.
+
+Theorem spec_is_stdlib_fromisocalendar_valid : forall y w d,
+  1 <= y <= 9999 -> 1 <= w <= iso_weeks_in_year y -> 1 <= d <= 7 ->
+  sl_isoweek_to_gregorian y w d = Ok (ord2ymd (fromisocalendar_ord y w d)).
+Proof. exact sl_isoweek_to_gregorian_ok. Qed.
+Print Assumptions spec_is_stdlib_fromisocalendar_valid.
+
+(* what date(y, m, d) accepts (_check_date_fields) is the specification's valid_dateb for years 1..9999 *)
+Theorem spec_is_stdlib_check_date_fields : forall y m d,
+  sl_check_date_fields y m d =
+  if (1 <=? y) && (y <=? 9999) && valid_dateb y m d then Ok (y, m, d) else Raise E_ValueError.
+Proof. exact sl_check_date_fields_spec. Qed.
+Print Assumptions spec_is_stdlib_check_date_fields.
+
+(* the month estimate `(n + 50) >> 5` of _ord2ymd never leaves the month tables (no IndexError is hidden by the table-lookup model);
+   a hand-stated side fact about that expression *)
+Theorem spec_is_stdlib_ord2ymd_month_estimate_in_table : forall k, 0 <= k <= 365 -> 1 <= Z.shiftr (k + 50) 5 <= 12.
+Proof. exact sl_ord2ymd_month_estimate_in_table. Qed.
+Print Assumptions spec_is_stdlib_ord2ymd_month_estimate_in_table.
+
+(* the hypotheses above are satisfiable / the functions compute *)
+Theorem spec_is_stdlib_examples :
+  valid_dateb 2024 2 29 = true /\ sl_ymd2ord 2024 2 29 = Ok 738945 /\ sl_ord2ymd 738945 = Ok (2024, 2, 29) /\
+  sl_date_isocalendar (mkdate 2024 12 30) = Ok (2025, 1, 1) /\ sl_isoweek_to_gregorian 2020 53 7 = Ok (2021, 1, 3) /\
+  sl_isoweek_to_gregorian 2021 53 1 = Raise E_ValueError /\ sl_ord2ymd 0 = Ok (0, 12, 31) /\
+  sl_ymd2ord 2023 2 29 = Raise E_Exception.
+Proof. exact sl_examples. Qed.
+Print Assumptions spec_is_stdlib_examples.
